@@ -149,6 +149,7 @@ def main():
         run.count("tree.kind", "malformed" if malformed else "valid")
         mods = G.build(graph, world)
         before = G.id_snapshot(mods)
+        order_before = G.order_snapshot(mods)
         # from_module
         with time_limit(60):
             fm = TensorDict.from_module(mods[root])
@@ -195,6 +196,13 @@ def main():
             run.oracle_fail("swap_back", [gsx, root, tsx], "module not restored by swapping the swap back: " + ",".join(d[:6]), "swap_back:" + d[0].split(":")[0])
         else:
             run.oracle_ok("swap_back")
+            # ... and in the same order (unless a plain tensor was aimed at a parameter slot)
+            if impl[0] == "ok" and G.keeps_param_slots(graph, world, tree, root):
+                if G.order_snapshot(mods) != order_before:
+                    run.oracle_fail("swap_back_order", [gsx, root, tsx], "the registries are restored but in another order: "
+                                    f"{order_before} -> {G.order_snapshot(mods)}", "swap_back:order")
+                else:
+                    run.oracle_ok("swap_back_order")
 
     # ------------------------------------------------------------------ stream 3: with-block programs
     n_prog = 1200 if quick else 8000
